@@ -53,12 +53,16 @@ def main():
             {"name": "mirfacts", "path": "driver/", "serves_properties": [c["property_id"] for c in checks],
              "kind_free_text": "rustc_private compiler wrapper dumping type-checked MIR facts (resolved callees, constants, spans) as JSON"},
             {"name": "sa", "path": "sa/", "serves_properties": [c["property_id"] for c in checks],
-             "kind_free_text": "Python static-analysis core (CFG, dominators, expression rebuild, path facts, must-call, typestate, taint) and per-property rules"},
+             "kind_free_text": "Python static-analysis core (CFG, dominators, expression rebuild, path facts, must-call, typestate, taint, "
+                               "splicing of newly extracted helpers and Option/Result combinators before analysis) and per-property rules"},
         ],
         "checks": checks,
         "not_applicable": na,
         "notes": "Static analysis only: no check runs cicada or its tests. Known genuine defects are in "
-                 "known_findings.json (open = reported as KNOWN-FINDING, fixed = repaired by a fix: commit in /repo).",
+                 "known_findings.json (open = reported as KNOWN-FINDING, fixed = repaired by a fix: commit in /repo). "
+                 "The thorough tier re-runs the property's rules on scratch copies of /repo with each corpus entry applied "
+                 "(selftest/mutants, seeded/: must be reported; selftest/refactors, refactored/: must stay silent) and records "
+                 "the outcome in the evidence file; corpus outcomes never change a check's exit code.",
     }
     with open(os.path.join(VERIF, "MANIFEST.json"), "w") as fh:
         json.dump(man, fh, indent=1)
